@@ -43,6 +43,7 @@ type DB struct {
 type HookRef struct {
 	Key     string
 	Channel bool
+	Def     string // the defining arguments (a repeated identical definition answers 0)
 }
 
 func NewDB() *DB {
